@@ -809,6 +809,7 @@ func (e *Engine) resetPath() {
 	e.unwind = e.cfg.Unwind
 	e.stack = e.stack[:0]
 	e.tolerant = 0
+	e.inSummary = false
 	e.hostState = map[string]any{}
 	e.unknownBranch = false
 	e.memo = map[string][]Value{}
